@@ -5,6 +5,9 @@ import glob
 import os
 from vf import replay as R
 HERE = os.path.dirname(os.path.abspath(__file__))
+THOROUGH_SWEEP = True
+SWEEP_BOUND = ("real nitro::options parser vs reference written from C01-C04/C11/C12/C14: 3 declarations x every argument vector of <= 3 tokens "
+               "from a 29-token alphabet (each parsed on a fresh and on a reused parser), plus 36 x 12 x 12 x 7 environment/default combinations")
 
 
 def native_replay(job, inputs, bdir):
